@@ -124,6 +124,37 @@ func (w *World) VerifyFunc(key string) (vc *VC, err error) {
 		}
 		vc.assume(True, t)
 	}
+	// registries: the key set of a global map built once by the package
+	// initialiser (no other function writes it: checked syntactically)
+	for _, tk := range w.cons.FuncOrd {
+		tc := w.cons.Funcs[tk]
+		reg := tc.Opts["registry"]
+		if reg == "" {
+			continue
+		}
+		sp := w.spkgs[tc.Pkg]
+		if sp == nil {
+			continue
+		}
+		g, ok := sp.Members[reg].(*ssa.Global)
+		if !ok {
+			continue
+		}
+		mt, ok := types.Unalias(g.Type().(*types.Pointer).Elem()).Underlying().(*types.Map)
+		if !ok || w.globalWritten(g) {
+			continue
+		}
+		_, mh := w.mapHeaps(mt)
+		m := fr.entry.get(w.globalHeap(g))
+		k := Sym(freshBinder("k"), w.sortOf(mt.Key()))
+		var alts []*Term
+		for _, e := range w.registry(tc.Pkg, reg) {
+			alts = append(alts, Eq(k, w.constTerm(e.key.Value, e.key.Type())))
+		}
+		has := Select(Select(fr.entry.get(mh), m), k)
+		vc.assume(True, And(Not(Eq(m, IntLit(0))), Forall([]Binder{{k.Op, k.Sort}}, Eq(has, Or(alts...)), []*Term{has})))
+		vc.note("registry %s: key set taken from the package initialiser", reg)
+	}
 	if fc != nil {
 		for _, u := range fc.Uses {
 			ax, e := w.lemmaAxiom(u, vc.used)
@@ -555,4 +586,34 @@ func (w *World) dataInvTerms(v *Val, h *Heap, vc *VC) []*Term {
 		out = append(out, Implies(Not(Eq(v.T, IntLit(0))), tm))
 	}
 	return out
+}
+
+// globalWritten: some function other than the package initialiser stores to
+// the global or updates the map it holds.
+func (w *World) globalWritten(g *ssa.Global) bool {
+	for path, sp := range w.spkgs {
+		if sp == nil || !strings.HasPrefix(path, modPath) {
+			continue
+		}
+		for _, fn := range w.allFuncs(path) {
+			if fn.Name() == "init" && fn.Parent() == nil {
+				continue
+			}
+			for _, b := range fn.Blocks {
+				for _, ins := range b.Instrs {
+					switch x := ins.(type) {
+					case *ssa.Store:
+						if x.Addr == g {
+							return true
+						}
+					case *ssa.MapUpdate:
+						if u, ok := x.Map.(*ssa.UnOp); ok && u.X == g {
+							return true
+						}
+					}
+				}
+			}
+		}
+	}
+	return false
 }
